@@ -12,6 +12,7 @@ VARIANTS = [
  dict(name="uncompute-eta-not-masked", kind="break", rule="C02.R4", file=TR, old="    eta2 = np.degrees(eta_two) * valid", new="    eta2 = np.degrees(eta_two)"),
  dict(name="valid-one-sided", kind="break", rule="C02.R5", file=GVG, old="    valid = (~msk) & ( quot >= -1) & ( quot <= 1)", new="    valid = (~msk) & ( quot >= -1)"),
  dict(name="valid-ored", kind="break", rule="C02.R5", file=GVG, old="    valid = (~msk) & ( quot >= -1) & ( quot <= 1)", new="    valid = (~msk) & (( quot >= -1) | ( quot <= 1))"),
+ dict(name="c-geometry-wedge-chi-order", kind="break", rule="C02.R6", file=CD, old="    matmat(cmat, wmat, mat);", new="    matmat(wmat, cmat, mat);", count=1, strict=False),
  dict(name="keep-mask-written-other-way", kind="keep", file=GVG, old="    valid = (~msk) & ( quot >= -1) & ( quot <= 1)", new="    valid = ( -1 <= quot ) & ( 1 >= quot ) & (~msk)"),
  dict(name="keep-k-refactored", kind="keep", file=TR, old="    k[0, :] = -ds * s  # this is negative x", new="    k[0, :] = -2 * s * s / wvln"),
 ]
